@@ -540,6 +540,39 @@ theorem compile_correct (hW : W.Wf) : ∀ (h : Hint) (p : Pith) (k : Nat) (env :
           simp only [Bool.false_or]
           apply eval_orList W r _ _ _ _ _ (by simp)
           simp [evalOr, hfirst, hev]
+  | .generic c bs, p, k, env, x, hwf, _, hw, hp => by
+    simp only [Hint.WfIn] at hwf
+    obtain ⟨env₁, n, he, hk', hf⟩ := asg_ok W r hp
+    have hpost : Post env env₁ p k x := post_of_asg hk' hf
+    simp only [gen, chk]
+    cases hsub : W.sub x.cls c with
+    | false =>
+      have hall : evalAnd W r env (Expr.isinst (p.asg k) [c] :: genBases conf bs (p.idx k)) = some (false, env₁, n) := by
+        simp [evalAnd, eval, he, hsub]
+      exact ⟨env₁, n, by rw [eval_andList W r _ _ _ _ _ (by simp) hall]; simp, hpost⟩
+    | true =>
+      obtain ⟨env₂, m, hev, hfr⟩ := compile_bases hW bs (p.idx k) env₁ x hwf.1 hwf.2 hw hk'
+      have hall : evalAnd W r env (Expr.isinst (p.asg k) [c] :: genBases conf bs (p.idx k)) =
+          some (chkEvery W conf r bs x, env₂, n + m) := by
+        simp [evalAnd, eval, he, hsub, hev]
+      exact ⟨env₂, n + m, by rw [eval_andList W r _ _ _ _ _ (by simp) hall]; simp,
+        post_trans_keep hf (idx_le p k) hfr, binds_keep hk' hfr⟩
+theorem compile_bases (hW : W.Wf) : ∀ (hs : List Hint) (k' : Nat) (env : Env) (x : Obj),
+    WfInList W hs → anyIgnorable hs = false → x.wf W = true → env (pv k') = some x →
+    ∃ env' n, evalAnd W r env (genBases conf hs k') = some (chkEvery W conf r hs x, env', n) ∧
+      (∀ j, j < k' + 1 → env' (pv j) = env (pv j))
+  | [], k', env, x, _, _, _, _ => ⟨env, 0, by simp [genBases, evalAnd, chkEvery], fun _ _ => rfl⟩
+  | h :: hs, k', env, x, hwf, hi, hw, hk => by
+    simp only [WfInList] at hwf
+    simp only [anyIgnorable, Bool.or_eq_false_iff] at hi
+    obtain ⟨env₁, n, hev, hf₁, _⟩ := compile_correct hW h .var k' env x hwf.1 hi.1 hw (var_ok W r hk)
+    have hf₁' : ∀ j, j < k' + 1 → env₁ (pv j) = env (pv j) := fun j hj => hf₁ j (by simpa [Pith.keep] using hj)
+    simp only [genBases, chkEvery, evalAnd, hev]
+    cases hc : chk W conf r h x with
+    | false => exact ⟨env₁, n, by simp, hf₁'⟩
+    | true =>
+      obtain ⟨env₂, m, hev₂, hf₂⟩ := compile_bases hW hs k' env₁ x hwf.2 hi.2 hw (by rw [hf₁' k' (by omega)]; exact hk)
+      exact ⟨env₂, n + m, by simp [hev₂], fun j hj => by rw [hf₂ j hj, hf₁' j hj]⟩
 theorem compile_union (hW : W.Wf) : ∀ (hs : List Hint) (q : Pith) (k' : Nat) (env : Env) (x : Obj),
     WfInList W hs → anyIgnorable hs = false → x.wf W = true → PithOK W r env q k' x → q.binds = true →
     ∃ env' n, evalOr W r env (genUnion conf hs q k') =
